@@ -255,7 +255,13 @@ def run_trace_family(ctx, fam, driver):
         seed = ctx.seed * 1000 + i
         tf = os.path.join(ctx.work, '%s-%d.ndjson' % (fam['profile'], seed))
         args = list(fam.get('args', [])) + list(fam.get(ctx.tier + '_args', []))
-        d = run_driver(ctx, driver, fam['profile'], tf, seed, args=args, timeout=fam.get('driver_timeout', 1500))
+        env = None
+        if fam.get('race'):
+            rl = os.path.join(ctx.work, 'racelog-%d' % seed)
+            for f in glob.glob(rl + '*'):
+                os.remove(f)
+            env = dict(GORACE='log_path=%s halt_on_error=0 exitcode=0' % rl, VERIF_RACE_LOG=rl)
+        d = run_driver(ctx, driver, fam['profile'], tf, seed, args=args, timeout=fam.get('driver_timeout', 1500), env=env)
         res = validate(ctx, spec, tf, enforce, consts=fam.get('consts', ''), timeout=fam.get('tlc_timeout', 1500))
         ntr, nev = account_trace(ctx, tf, sig=fam.get('sig'), trace_event=fam.get('trace_event', 'reset'))
         note_known(ctx, res['known_used'])
@@ -272,6 +278,12 @@ def run_trace_family(ctx, fam, driver):
                 if res2['accepted']:
                     raise Infra('rejection of %s seed %d did not reproduce (line %s, %s)' % (fam['profile'], seed, res['line'], res['failed']))
             path = save_replay(ctx, tf, res, fam['profile'], seed, extra=dict(spec=spec, enforce=enforce, consts=fam.get('consts', '')))
+            try:
+                with open(d['stderr'], errors='replace') as f:
+                    err = f.read()
+                open(os.path.join(path, 'driver.stderr'), 'w').write(err[:100000] + ('\n...\n' + err[-100000:] if len(err) > 200000 else err[100000:]))
+            except OSError:
+                pass
             viol.append(dict(path=path, failed=res['failed'], line=res['line']))
             break
         if ctx.elapsed() > ctx.budget and i + 1 < seeds:
